@@ -358,6 +358,96 @@ def shared_freelist(ctx, rule='C06.shared-freelist'):
     return res
 
 
+import re as _re
+_ATOMIC_WRITE = _re.compile(r'^(core|std)::sync::atomic::Atomic\w*::(store|swap|fetch_\w+|compare_exchange\w*|compare_and_swap|get_mut)$|^(core|std)::cell::Cell::<.*>::(set|replace|swap|take)$|^(core|std)::cell::Cell::(set|replace|swap|take)$')
+_KNOWN_SHARED = ('data', 'mmap_lock', 'freelist', 'file', 'open_ro_txs')    # each has its own who-may-write rule (O7 / shared-freelist / C04.register / C09)
+
+
+def shared_state(ctx, rule='C06.shared-state'):
+    """state shared between transactions (interior-mutable fields of DBInner) is changed only by the commit and by open.  The five fields the pinned tree has are covered by
+    their own rules; this one covers what they cannot: an atomic / Cell field, or a further Mutex / RwLock field, written on the way into or through a write transaction
+    (begin, mutators, drop).  Such a write is not undone when the transaction is abandoned, so later commits do not behave as if it had never existed"""
+    res = []
+    F = ctx.facts
+    try:
+        dbopen, cm, op = ctx.need('DBInner::open', 'Tx::commit', 'OpenOptions::open')
+    except AnchorError as e:
+        return [unresolved(rule, str(e))]
+    fields = {f['name']: f['ty'] for f in (F.adt_fields('DBInner') or [])}
+    fl = floor(rule, 'fields of DBInner', len(fields), 5)
+    if fl:
+        return [fl]
+    from guards import writable_tests
+    try:
+        begin = ctx.need('begin-role')[0]
+    except AnchorError:
+        begin = None
+    writers = {}    # fn -> [(loc, field, how)]
+    readers = {}    # field -> {fn}
+    for f in F.fns:
+        du = None
+        ro_only = None
+        for bb in f.reachable_blocks():
+            t = f.term(bb)
+            c = callee_of(t) if t['k'] in ('call', 'tailcall') else None
+            if not c or not t['args']:
+                continue
+            path = strip_generics(c['path'])
+            how = rd = None
+            if _ATOMIC_WRITE.match(path) or _ATOMIC_WRITE.match(c['path']):
+                how = last_seg(path)
+                rd = how.startswith('fetch_') or how.startswith('compare') or how == 'swap'
+            elif path in ('std::ops::DerefMut::deref_mut',) or last_seg(path) in ('get_mut',):
+                how = 'write through the guard'
+            elif _re.search(r'atomic::Atomic\w*::load$|cell::Cell::get$', path) or path == 'std::ops::Deref::deref':
+                rd = True
+            if not how and not rd:
+                continue
+            du = du or ctx.du(f)
+            _, atoms = du.slice_operand(t['args'][0])
+            for (adt, fld) in du.fields_in(atoms):
+                if last_seg(adt) == 'DBInner' and fld in fields and fld not in _KNOWN_SHARED:
+                    ty = fields[fld]
+                    if 'Atomic' in ty or 'Cell<' in ty or ty.startswith('std::sync::Mutex<') or ty.startswith('std::sync::RwLock<'):
+                        owner = f.owner if f.kind == 'Closure' else f
+                        if rd:
+                            readers.setdefault(fld, set()).add(owner)
+                        if how:
+                            if ro_only is None:
+                                # what a read-only transaction does to shared state (registering itself, and undoing that when it is dropped) is C04's subject
+                                tests = writable_tests(F, f, du)
+                                ro_only = (set(f.reachable_blocks()) - f.reach_from([0], avoid_edges={(b, ft) for (b, tt, ft) in tests})) if tests else set()
+                            if bb not in ro_only:
+                                writers.setdefault(owner, []).append((f.loc(bb), fld, how))
+    writer_side = F.reachable_fns([x for x in (begin, cm) if x is not None])
+    cg = F.callgraph()
+    nentries = 0
+    for e in F.fns:
+        if e.kind == 'Closure' or not (e.eff_pub or (e.trait and last_seg(e.trait) == 'Drop')) or e in (cm, op, F.fn('DB::open')):
+            continue
+        nentries += 1
+        reach, todo = {e}, [e]
+        while todo:
+            x = todo.pop()
+            for y in cg.get(x, ()):
+                if y not in reach and y is not cm and y is not op:
+                    reach.add(y)
+                    todo.append(y)
+        for g in reach:
+            for loc, fld, how in writers.get(g, ()):
+                if not (readers.get(fld, set()) & writer_side):
+                    continue        # a counter nobody on the writer's side looks at (statistics) cannot change what later commits do
+                res.append(bad(rule, '%s | %s writes DBInner.%s' % (e.qual, g.qual, fld),
+                               '%s reaches %s, which changes the shared field DBInner.%s (%s at %s), and the begin / commit of later write transactions read that field: what a transaction '
+                               'does to shared state before it commits is not undone when it is dropped or fails, so later commits can tell that it existed'
+                               % (e.qual, g.qual, fld, how, loc), where=loc))
+    unknown = sorted(n for n, ty in fields.items() if n not in _KNOWN_SHARED and ('Atomic' in ty or 'Cell<' in ty or ty.startswith('std::sync::Mutex<') or ty.startswith('std::sync::RwLock<')))
+    if not any(not r.ok for r in res):
+        res.append(ok(rule, 'no interior-mutable field of DBInner beyond %s is written outside commit / open (%d further such fields, %d entries examined)'
+                      % (', '.join(_KNOWN_SHARED), len(unknown), nentries), sites=nentries))
+    return res
+
+
 def _err_readonly_blocks(fn, ctx=None):
     """blocks that store Err(Error::ReadOnlyTx) into _0 (directly, or by propagating with `?` the error of a guard helper that builds it)"""
     out = set()
@@ -708,6 +798,7 @@ def run(ctx, tier):
     results += file_effects(ctx)
     results += open_existing(ctx)
     results += shared_freelist(ctx)
+    results += shared_state(ctx)
     results += ob['O4']
     results += commit_on_success_only(ctx)
     results += guard(ctx)
@@ -715,6 +806,8 @@ def run(ctx, tier):
     results += error_atomic(ctx)
     import c02
     results += c02.alternate_rule(ctx, rule='C06.alternate')
+    # a commit that fails before its header write must not have touched a page of the last committed state: pages freed by the transaction stay pending
+    results += c02.cow_free_set(ctx, rule='C06.cow.free-set')
     import c16
     results += ob['O6'] + c16.strict_guard(ctx, rule='C06.strict-before-header')
     return dict(
